@@ -46,7 +46,7 @@ def feasible(pc, timeout_ms=250, full=False):
     for c in pc:
         if full or not has_quant(c):
             s.add(c)
-    r = s.check()
+    r = _guarded_check(s, timeout_ms)
     if r == z3.unknown and full:
         return feasible(pc, timeout_ms, full=False)
     return r != z3.unsat
@@ -59,7 +59,19 @@ def quick_valid(pc, goal, timeout_ms=100):
         if not has_quant(c):
             s.add(c)
     s.add(z3.Not(goal))
-    return s.check() == z3.unsat
+    return _guarded_check(s, timeout_ms) == z3.unsat
+
+
+def reach(pc, timeout_ms=3000):
+    """Reachability of a path on the quantifier-free part of its condition: sat (with model) / unsat / unknown."""
+    t0 = time.time()
+    s = _mk_solver(timeout_ms)
+    for c in pc:
+        if not has_quant(c):
+            s.add(c)
+    r = _guarded_check(s, timeout_ms)
+    v = "sat" if r == z3.sat else ("unsat" if r == z3.unsat else "unknown")
+    return dict(verdict=v, backend="z3-5.1.0 (reachability, quantifier-free part)", model=s.model() if r == z3.sat else None, ms=(time.time() - t0) * 1000.0)
 
 
 def _external(smt2, timeout_s):
@@ -113,7 +125,22 @@ def _check(pc, goal, timeout_ms, qf_only=False, ematch=False, seed=None):
         if not qf_only or not has_quant(c):
             s.add(c)
     s.add(z3.Not(goal))
-    return s.check(), s
+    return _guarded_check(s, timeout_ms), s
+
+
+def _guarded_check(s, timeout_ms):
+    """s.check() with a watchdog: z3 does not always honour its own timeout (observed: minutes inside one check with a
+    20 s timeout); after 1.5x the budget + 2 s the context is interrupted and the answer is `unknown`."""
+    import threading
+    t = threading.Timer(timeout_ms / 1000.0 * 1.5 + 2.0, z3.main_ctx().interrupt)
+    t.daemon = True
+    t.start()
+    try:
+        return s.check()
+    except z3.Z3Exception:
+        return z3.unknown
+    finally:
+        t.cancel()
 
 
 def prove(pc, goal, timeout_ms=None, want_model=True, external=True):
